@@ -203,7 +203,17 @@ func (g *c01CGen) store(ind int, vars []c01CVar, loop int) {
 	}
 
 	for _, v := range vars {
-		if v.str && g.chance(0.4) {
+		// (not when another variable of the loop has to be mentioned by every closure — the first of the list and
+		// the ones marked must: the string closure names only v, and Go rejects an unused range variable)
+		others := false
+
+		for x, w := range vars {
+			if (w.must || x == 0) && w.name != v.name {
+				others = true
+			}
+		}
+
+		if v.str && !others && g.chance(0.4) {
 			g.emit(ind, `ss = append(ss, func() string { return %s + "!" })`, v.name)
 
 			return
